@@ -1,7 +1,7 @@
 (* C06 — lemmas, part 2: constructors, builders, Concat/Substring/CharAt/Length, order, equality, keys, export *)
 From Coq Require Import List NArith ZArith Bool Lia.
 Import ListNotations.
-From Verif.C06 Require Import Model Proofs.
+From Verif.C06 Require Import Model Proofs Utf8.
 Local Open Scope N_scope.
 
 (* ------------------------------------------------------------------------------------------ *)
@@ -144,23 +144,31 @@ Proof.
   intros a b H. destruct a as [| |s [|]]; destruct b as [| |t [|]]; simpl in *; try reflexivity; discriminate.
 Qed.
 
-Lemma concat_nf : forall a b, nf a = true -> nf b = true -> nf (concat a b) = true.
+(* importedString.Concat, unscanned + unscanned: either the raw bytes are joined (only when s does not end in a
+   truncated sequence) or the general path is taken; in both cases the units are concatenated *)
+Lemma concat_spec : forall a b, nf a = true -> nf b = true ->
+  nf (concat a b) = true /\ units (concat a b) = units a ++ units b.
 Proof.
   intros a b Ha Hb. destruct (both_unscanned a b) eqn:E.
-  - destruct a as [| |s [|]]; destruct b as [| |t [|]]; simpl in E; try discriminate. reflexivity.
-  - rewrite concat_slow by exact E. apply concat_dv_spec; auto using devirt_shape, nf_devirt.
+  - destruct a as [| |s [|]]; destruct b as [| |t [|]]; simpl in E; try discriminate.
+    unfold concat. destruct (last_rune_ok s) eqn:L.
+    + split; [reflexivity|]. simpl. rewrite (last_rune_ok_app s t L), flat_map_app. reflexivity.
+    + rewrite <- (units_devirt (SImp s false)).
+      apply concat_dv_spec; auto using devirt_shape, nf_devirt.
+  - rewrite concat_slow by exact E. rewrite <- (units_devirt a).
+    apply concat_dv_spec; auto using devirt_shape, nf_devirt.
 Qed.
 
-Lemma concat_units : forall a b, nf a = true -> nf b = true -> both_unscanned a b = false ->
-  units (concat a b) = units a ++ units b.
-Proof.
-  intros a b Ha Hb E. rewrite concat_slow by exact E. rewrite <- (units_devirt a).
-  apply concat_dv_spec; auto using devirt_shape, nf_devirt.
-Qed.
+Lemma concat_nf : forall a b, nf a = true -> nf b = true -> nf (concat a b) = true.
+Proof. intros a b Ha Hb. apply (concat_spec a b Ha Hb). Qed.
 
-Lemma concat_fast_refuted : exists s t,
-  units (concat (SImp s false) (SImp t false)) <> units (SImp s false) ++ units (SImp t false).
-Proof. exists [97; 195], [169; 98]. vm_compute. discriminate. Qed.
+Lemma concat_units : forall a b, nf a = true -> nf b = true -> units (concat a b) = units a ++ units b.
+Proof. intros a b Ha Hb. apply (concat_spec a b Ha Hb). Qed.
+
+(* the guard is necessary: joining the raw bytes unconditionally (the code before fd1eed7) is wrong *)
+Lemma raw_join_wrong : exists s t,
+  units (SImp (s ++ t) false) <> units (SImp s false) ++ units (SImp t false) /\ last_rune_ok s = false.
+Proof. exists [97; 195], [169; 98]. vm_compute. split; [discriminate|reflexivity]. Qed.
 
 (* ------------------------------------------------------------------------------------------ *)
 (* Substring, CharAt, Length *)
@@ -290,18 +298,22 @@ Proof.
     simpl in Hb. apply units_imp_ascii. exact Hb.
   - destruct (scan s) eqn:E; [|discriminate]. apply list_eqb_eq in H. subst.
     apply (units_imp_scan _ _ _ E).
-  - apply list_eqb_eq in H. subst. reflexivity.
+  - apply orb_true_iff in H. destruct H as [H|H].
+    + apply list_eqb_eq in H. subst. reflexivity.
+    + destruct (scan s) as [u|] eqn:Es; [|discriminate]. destruct (scan t) as [v|] eqn:Et; [|discriminate].
+      apply list_eqb_eq in H. subst v.
+      rewrite (units_imp_scan _ sc _ Es), (units_imp_scan _ tc _ Et). reflexivity.
 Qed.
 
 Lemma list_eqb_refl : forall l, list_eqb l l = true.
 Proof. intros. apply list_eqb_eq. reflexivity. Qed.
 
-(* completeness for the eight pairs in which at most one side is an importedString *)
-Lemma strict_equals_complete : forall a b, nf a = true -> nf b = true -> both_imported a b = false ->
+(* completeness, all nine pairs *)
+Lemma strict_equals_complete : forall a b, nf a = true -> nf b = true ->
   units a = units b -> strict_equals a b = true.
 Proof.
-  intros a b Ha Hb Hbi H.
-  destruct a as [s|s|s sc]; destruct b as [t|t|t tc]; simpl in *; try discriminate.
+  intros a b Ha Hb H.
+  destruct a as [s|s|s sc]; destruct b as [t|t|t tc]; simpl in *.
   - subst. apply list_eqb_refl.
   - exfalso. eapply ascii_ne_uni; eauto.
   - destruct (scan t) as [u|] eqn:E.
@@ -328,17 +340,45 @@ Proof.
     + pose proof (scan_some _ _ E) as (Hu & _). subst u. subst t. apply list_eqb_refl.
     + exfalso. apply scan_none in E. rewrite decode_ascii, enc16_all_ascii in H by exact E. subst.
       rewrite has_uni_all_ascii, E in Hb. discriminate.
+  - (* imported x imported: same bytes, or the same scanned array *)
+    destruct (scan s) as [u|] eqn:Es; destruct (scan t) as [v|] eqn:Et.
+    + pose proof (scan_some _ _ Es) as (Hu & _). pose proof (scan_some _ _ Et) as (Hv & _). subst u v.
+      rewrite H, list_eqb_refl. apply orb_true_r.
+    + exfalso. pose proof (scan_some _ _ Es) as (Hu & Hh & _). apply scan_none in Et.
+      rewrite (decode_ascii t), (enc16_all_ascii t) in H by exact Et. subst u.
+      eapply ascii_ne_uni; [exact Et|exact Hh|]. symmetry. exact H.
+    + exfalso. pose proof (scan_some _ _ Et) as (Hv & Hh & _). apply scan_none in Es.
+      rewrite (decode_ascii s), (enc16_all_ascii s) in H by exact Es. subst v.
+      eapply ascii_ne_uni; [exact Es|exact Hh|exact H].
+    + apply scan_none in Es. apply scan_none in Et.
+      rewrite (decode_ascii s), (enc16_all_ascii s), (decode_ascii t), (enc16_all_ascii t) in H by assumption.
+      subst. rewrite list_eqb_refl. reflexivity.
 Qed.
 
-(* F19: two importedStrings with the same units that are not === *)
-Lemma strict_equals_imported_refuted : exists a b,
-  nf a = true /\ nf b = true /\ units a = units b /\ strict_equals a b = false
-  /\ equals a b = true /\ map_hit a b = false /\ objkey_hit a b = true
-  /\ (exists l, nf l = true /\ strict_equals a l = true /\ strict_equals l b = true).
+Lemma strict_equals_iff : forall a b, nf a = true -> nf b = true ->
+  (strict_equals a b = true <-> units a = units b).
+Proof. intros a b Ha Hb. split; [apply strict_equals_sound; auto|apply strict_equals_complete; auto]. Qed.
+
+(* every equality-like observable is unit equality, for all nine pairs *)
+Lemma equals_iff : forall a b, nf a = true -> nf b = true -> (equals a b = true <-> units a = units b).
 Proof.
-  exists (SImp [97; 255] false), (SImp [97; 254] false). vm_compute.
-  repeat split; try reflexivity. exists (SUni [97; 65533]). vm_compute. auto.
+  intros a b Ha Hb. unfold equals. destruct a as [s|s|s sc]; try apply strict_equals_iff; auto.
+  rewrite orb_true_iff. rewrite (strict_equals_iff (SImp s sc) b Ha Hb).
+  rewrite (strict_equals_iff (devirt (SImp s sc)) b (nf_devirt _ Ha) Hb), units_devirt. tauto.
 Qed.
+
+Lemma map_hit_iff : forall a b, nf a = true -> nf b = true -> (map_hit a b = true <-> units a = units b).
+Proof.
+  intros a b Ha Hb. unfold map_hit, same_as. rewrite andb_true_iff, list_eqb_eq, !hash_bytes_raw_key.
+  rewrite (raw_key_spec a b Ha Hb), (strict_equals_iff a b Ha Hb). tauto.
+Qed.
+
+Lemma objkey_hit_iff : forall a b, nf a = true -> nf b = true -> (objkey_hit a b = true <-> units a = units b).
+Proof. intros a b Ha Hb. unfold objkey_hit. rewrite list_eqb_eq. apply raw_key_spec; auto. Qed.
+
+(* the scanned-bytes comparison matters: comparing raw bytes only (the code before 8242a43) is incomplete *)
+Lemma raw_bytes_incomplete : exists s t, units (SImp s false) = units (SImp t false) /\ list_eqb s t = false.
+Proof. exists [97; 255], [97; 254]. vm_compute. auto. Qed.
 
 (* ------------------------------------------------------------------------------------------ *)
 (* Export *)
@@ -360,12 +400,13 @@ Proof.
   unfold is_ascii in H1. unfold enc8 at 1. rewrite H1. simpl. f_equal. auto.
 Qed.
 
-Lemma export_spec : forall a, nf a = true -> (forall s sc, a <> SImp s sc) -> export a = s_export (units a).
+Lemma export_spec : forall a, nf a = true -> (forall s sc, a = SImp s sc -> valid_utf8 s = true) ->
+  export a = s_export (units a).
 Proof.
-  intros a Ha Hni. destruct a as [bs|us|s sc]; simpl in *.
+  intros a Ha Hv. destruct a as [bs|us|s sc]; simpl in *.
   - unfold s_export. rewrite dec16_ascii, enc8_all_ascii by exact Ha. reflexivity.
   - reflexivity.
-  - exfalso. eapply Hni. reflexivity.
+  - unfold s_export. symmetry. apply valid_export. eapply Hv. reflexivity.
 Qed.
 
 Lemma export_imported_refuted : exists a, nf a = true /\ export a <> s_export (units a).
